@@ -15,9 +15,9 @@ from playback.tape_recorder import TapeRecorder
 
 TARGET = _real_os.path.join(REPO, 'playback', 'studio', 'equalizer.py')
 
-WORKER_ONLY = ('worker_exit', 'worker_abort', 'worker_hang', 'worker_late_answer')
+WORKER_ONLY = ('worker_exit', 'worker_abort', 'worker_hang', 'worker_late_answer', 'worker_late_death')
 BEHAVIOURS = ['equal', 'different', 'player_raises', 'extractor_raises', 'comparator_raises', 'comparator_bare_status', 'slow',
-              'worker_exit', 'worker_abort', 'worker_hang', 'worker_late_answer']
+              'worker_exit', 'worker_abort', 'worker_hang', 'worker_late_answer', 'worker_late_death']
 
 ALLOWED = {
     'equal': ['Equal'], 'slow': ['Equal'], 'different': ['Different'],
@@ -25,6 +25,7 @@ ALLOWED = {
     'comparator_bare_status': ['Fixed'],
     'worker_exit': ['EqualizerFailure'], 'worker_abort': ['EqualizerFailure'], 'worker_hang': ['EqualizerFailure'],
     'worker_late_answer': ['Equal', 'EqualizerFailure'],
+    'worker_late_death': ['EqualizerFailure'],
 }
 
 
@@ -112,6 +113,12 @@ def behave(world, tag):
     elif b == 'worker_hang':
         world.run.fault('worker_hang')
         sim.sleep(1e7)
+    elif b == 'worker_late_death':
+        # hangs until the parent is about to give up, then dies by itself (between the parent's last liveness poll
+        # and the liveness check of its timeout handling)
+        world.run.fault('worker_late_death')
+        sim.sleep(world.timeout + (0.0 if sim.jitter else 1.0) + world.late_eps.get(tag, 0.0))
+        world.mp.current_proc().kill()
     elif b == 'worker_late_answer':
         world.run.fault('worker_late_answer')
         # the parent gives up after ceil(timeout) seconds when computation costs time (jitter) and one polling slice
